@@ -1,6 +1,7 @@
 package props
 
 import (
+	"bytes"
 	"fmt"
 	"math/rand"
 	"regexp"
@@ -10,6 +11,8 @@ import (
 	"github.com/yuin/goldmark"
 	"github.com/yuin/goldmark/ast"
 	east "github.com/yuin/goldmark/extension/ast"
+	"github.com/yuin/goldmark/parser"
+	"github.com/yuin/goldmark/text"
 
 	"verif/cfg"
 	"verif/core"
@@ -505,10 +508,17 @@ func c16Specs() []cfg.Spec {
 	var out []cfg.Spec
 	for _, base := range []cfg.Spec{{Ext: cfg.ExtFootnote}, {Only: []string{cfg.SGFM, cfg.SFootnote}}, {Ext: cfg.ExtAll}} {
 		for _, x := range []bool{false, true} {
-			for _, p := range []string{"", "p-"} {
+			for _, p := range []string{"", "p-", "a-rather-long-prefix/with-the-length-of-a-file-path-or-a-digest/0123456789abcdef-"} {
 				s := base
 				s.XHTML = x
 				s.FootnotePfx = p
+				out = append(out, s)
+			}
+			if base.Only == nil {
+				// all footnote options set (id prefix, link/back-link titles and classes)
+				s := base
+				s.XHTML = x
+				s.Rich = true
 				out = append(out, s)
 			}
 		}
@@ -521,11 +531,35 @@ func c16Eval(md goldmark.Markdown, spec cfg.Spec, src []byte, exp *c16Expect) (f
 	if !res.OK() {
 		return nil, 0, "", "fail"
 	}
-	fs, items, sig, ok := c16Verify(res.Out, spec.FootnotePfx, exp, res.Doc)
+	fs, items, sig, ok := c16Verify(res.Out, spec.FootnoteIDPrefix(), exp, res.Doc)
 	if !ok {
 		return nil, 0, "", "tokenizer"
 	}
 	return fs, items, sig, "ok"
+}
+
+// c16Ctx is one parser.Context handed to many Parse calls (parser.WithContext): a caller that keeps a context around
+// gets the same footnote laws on every document.
+var (
+	c16Ctx  = parser.NewContext()
+	c16CtxN int
+)
+
+func c16EvalReusedContext(md goldmark.Markdown, spec cfg.Spec, src []byte, exp *c16Expect) (fs []c16Finding, status string) {
+	var out bytes.Buffer
+	var doc ast.Node
+	pv, _ := core.Try(func() {
+		doc = md.Parser().Parse(text.NewReader(src), parser.WithContext(c16Ctx))
+		_ = md.Renderer().Render(&out, src, doc)
+	})
+	if pv != nil {
+		return nil, "fail"
+	}
+	fs, _, _, ok := c16Verify(out.Bytes(), spec.FootnoteIDPrefix(), exp, doc)
+	if !ok {
+		return nil, "tokenizer"
+	}
+	return fs, "ok"
 }
 
 func c16Check(c *core.Ctx, pool *cfg.Pool, spec cfg.Spec, d c16Doc) {
@@ -535,6 +569,18 @@ func c16Check(c *core.Ctx, pool *cfg.Pool, spec cfg.Spec, d c16Doc) {
 	fs, items, sig, status := c16Eval(md, spec, d.src, d.exp)
 	c.End()
 	c.Eval()
+	c16CtxN++
+	if c16CtxN%6 == 0 && status == "ok" {
+		rfs, st := c16EvalReusedContext(md, spec, d.src, d.exp)
+		c.Eval()
+		c.Count("documents_parsed_with_a_reused_context", 1)
+		if st == "ok" {
+			for _, f := range rfs {
+				c.Violation(&core.Violation{Class: f.class + ":reused-parser-context", Locus: f.locus, Config: name, Input: d.src,
+					Detail: "with one parser.Context reused across documents (parser.WithContext)\n" + f.detail})
+			}
+		}
+	}
 	c.Observe("configs", name)
 	switch status {
 	case "fail":
